@@ -22,6 +22,21 @@ def delayKey [Repr α] : (n : Nat) → DelayState α n → String
   | 0, _ => "."
   | n + 1, s => toString (repr s.1) ++ ";" ++ delayKey n s.2
 
+/-! ### PipelinedActor(latency = L), any L (control path of `BinaryActor`/`PipelinedActor`, e.g. of the 8b/10b
+  stream wrappers), with an `L`-stage data register chain gated by the same `pipe_ce`.
+
+  State: the `L` stages, stage 1 first; each holds (valid_n, token registers).  `pipe_ce = source.ready |
+  ~valid_L`; `sink.ready = pipe_ce`; `first_1 = sink.valid & sink.first` (likewise last).  `L = 0`: purely
+  combinational. -/
+
+def paIn (v : Bool) (t : Tok α) : Bool × Tok α := (v, { data := t.data, first := v && t.first, last := v && t.last })
+
+def pipeActor (L : Nat) (z : Tok α) : Elem α α (List (Bool × Tok α)) where
+  init := List.replicate L (false, z)
+  fwd s v t := (s.getLast?).getD (paIn v t)
+  bwd s v t r := r || !((s.getLast?).getD (paIn v t)).1
+  next s v t r := if r || !((s.getLast?).getD (paIn v t)).1 then (paIn v t :: s).dropLast else s
+
 /-! ### Shifter (PipelinedActor with latency 2)
 
   Sink-side wires: `data = (sink.data, shift)`; `shift` is an ordinary input sampled combinationally on the
